@@ -99,6 +99,18 @@ func (s *Sym) MakeFn(name string, args ...*RF) *RF {
 				return s.Not(args[0])
 			}
 		}
+		// one branch a boolean literal (so the whole is boolean):
+		// ite(c,true,d)=c||d ; ite(c,false,d)=!c&&d ; ite(c,d,true)=!c||d ; ite(c,d,false)=c&&d
+		if t := args[1].SingleAtom(); t != nil && t.Name == "true" {
+			return s.Or(args[0], args[2])
+		} else if t != nil && t.Name == "false" {
+			return s.And(s.Not(args[0]), args[2])
+		}
+		if f := args[2].SingleAtom(); f != nil && f.Name == "true" {
+			return s.Or(s.Not(args[0]), args[1])
+		} else if f != nil && f.Name == "false" {
+			return s.And(args[0], args[1])
+		}
 		// && / || shapes: ite(c1, ite(c2,A,B), B) = ite(c1&&c2, A, B) ; ite(c1, A, ite(c2,A,B)) = ite(c1||c2, A, B)
 		if in := args[1].SingleAtom(); in != nil && in.Name == "ite" && in.Args[2].Equal(args[2]) {
 			return s.MakeFn("ite", s.And(args[0], in.Args[0]), in.Args[1], args[2])
